@@ -424,6 +424,40 @@ func recordReads(p *pkgInfo, fd *ast.FuncDecl, e ast.Expr, name, producer, pathA
 	})
 }
 
+// optionWriteFacts: every assignment to a field of SchemaValidatorOptions, anywhere in the package. The options
+// object is shared by pointer through a whole validator tree (and, in spec validation, through every validator
+// built for one document): a write outside the option setters changes the behaviour of validators that are
+// already built (C08, C18, C19).
+func optionWriteFacts(p *pkgInfo) [][2]string {
+	fields := map[string]bool{}
+	for _, f := range p.structFields("SchemaValidatorOptions") {
+		fields[f] = true
+	}
+	var out [][2]string
+	for _, fn := range p.sortedFiles() {
+		for _, d := range p.files[fn].Decls {
+			fd, ok := d.(*ast.FuncDecl)
+			if !ok || fd.Body == nil {
+				continue
+			}
+			ast.Inspect(fd.Body, func(n ast.Node) bool {
+				as, ok := n.(*ast.AssignStmt)
+				if !ok {
+					return true
+				}
+				for _, l := range as.Lhs {
+					if se, ok := l.(*ast.SelectorExpr); ok && fields[se.Sel.Name] {
+						// the struct types of the validators have an `Options` field of their own: `x.Options = opts` is not a field write
+						out = append(out, [2]string{p.pos(as), funcKey(fd) + ": " + p.src(l)})
+					}
+				}
+				return true
+			})
+		}
+	}
+	return out
+}
+
 func genSpecFacts(p *pkgInfo) string {
 	var b strings.Builder
 	b.WriteString("/-\n  GENERATED by /verif/extract from /repo's spec.go, default_validator.go, example_validator.go, helpers.go.\n  Do not edit: regenerated on every run.\n-/\nnamespace VM.Generated\n\n")
@@ -448,6 +482,16 @@ func genSpecFacts(p *pkgInfo) string {
 	for i, e := range ver {
 		fmt.Fprintf(&b, "  { site := %s, func := %s, expr := %s, exit := %s, cls := %s }", leanStr(e.Site), leanStr(e.Func), leanStr(e.Expr), leanStr(e.Exit), leanStr(e.Class))
 		if i+1 < len(ver) {
+			b.WriteString(",")
+		}
+		b.WriteString("\n")
+	}
+	b.WriteString("]\n\n")
+	b.WriteString("/-- assignments to a field of SchemaValidatorOptions (site, function: target) -/\ndef optionWrites : List (String × String) := [\n")
+	ow := optionWriteFacts(p)
+	for i, e := range ow {
+		fmt.Fprintf(&b, "  (%s, %s)", leanStr(e[0]), leanStr(e[1]))
+		if i+1 < len(ow) {
 			b.WriteString(",")
 		}
 		b.WriteString("\n")
